@@ -22,7 +22,9 @@ func c15wants(id string, b core.Batch) bool {
 	n := b.Name
 	switch id {
 	case "C01":
-		return strings.HasPrefix(n, "cache-")
+		// cache-level histories, and the proxy-level churn scenario on plain transport (hits being served while the
+		// same entries are revalidated by 304 every few milliseconds)
+		return strings.HasPrefix(n, "cache-") || (strings.HasPrefix(n, "proxy-churn-") && strings.HasSuffix(n, "-plain")) || strings.HasPrefix(n, "proxy-reval-storm-")
 	case "C05", "C09":
 		return true
 	case "C12":
